@@ -327,7 +327,7 @@ pub fn debug_gen() {
   let t = c20::model_text("gen").unwrap();
   let d = dmntk_model::parse(&t).unwrap();
   let me = dmntk_model_evaluator::ModelEvaluator::new(&d).unwrap();
-  for inv in ["num", "tmp", "rx", "c1", "c2", "c3", "c4", "svc", "tbl", "label", "twice", "rel", "lst", "inv", "fnd", "tp", "to", "tr", "tcnt", "tmin", "tdef", "tany", "tfirst", "tp2", "to2", "tu2", "tany2", "rx2", "inv2", "misc"] {
+  for inv in ["num", "tmp", "rx", "c1", "c2", "c3", "c4", "svc", "tbl", "label", "twice", "rel", "lst", "inv", "fnd", "tp", "to", "tr", "tcnt", "tmin", "tdef", "tany", "tfirst", "tp2", "to2", "tu2", "tany2", "rx2", "inv2", "misc", "sw1", "sw2", "sw3", "sw4", "sw6", "sw7", "defaults", "nest"] {
     let ctx = dmntk_feel_evaluator::evaluate_context(&dmntk_feel::Scope::default(), if inv == "label" { r#"{n: 7, t: "ab12_34"}"# } else if inv == "twice" { "{p: 4}" } else { r#"{x: 7, s: "ab12_34"}"# }).unwrap();
     println!("{} = {}", inv, me.evaluate_invocable(inv, &ctx));
   }
